@@ -1,4 +1,5 @@
 import TakVerif.Proofs.Bot
+import TakVerif.Proofs.BotLock
 
 /-! # C07 — the playtak bot's game record tracks the server under every interleaving
 
@@ -60,6 +61,12 @@ theorem bot_no_panic (cfg : Conf) (hfix : cfg.fixed = true) (size : Nat) (secs :
   by_cases hend : ∃ e ∈ evs, isEnd cfg e
   · rw [h1 hend] at he; cases he
   · rw [h2 hend] at he; cases he
+
+/-- **`moveLock` serialises the thinkers**: in every reachable state (either variant of the loop) at most one thinker
+goroutine is inside `Bot.GetMove`, however many invocations have come and gone with their thinkers still waiting. -/
+theorem lock_exclusive (cfg : Conf) (size : Nat) (secs : Int) (evs : List Ev) :
+    holders (run cfg (start cfg size secs) evs) ≤ 1 :=
+  holders_run cfg _ evs (holders_start cfg size secs)
 
 /-! ## The pinned code: the invariant is not inductive
 
@@ -128,6 +135,9 @@ example :
     s.moves = [flat 4 1, flat 4 0, flat 0 0] ∧ s.moves = s.srvMoves ∧ s.positions = s.srvPos ∧
     s.log.length = 3 ∧ s.status = .ended ∧ s.result = "R-0" ∧ s.mine = 590000000000 := by
   decide +kernel
+
+/-- in `playTrace` a thinker does hold the lock at times (after the 13th event thinker 4 is inside `GetMove`) -/
+example : holders (run (white true) (start (white true) 5 600) (playTrace.take 13)) = 1 := by decide +kernel
 
 /-- the hypotheses of `bot_ends_iff`/`bot_no_panic` hold of this run (sixteen events: moves, clock, undo traffic,
 chat, five thinkers, `Over`), and so do their conclusions -/
